@@ -1,43 +1,699 @@
+// harness notif: the notification stream end to end on REAL controllers (property C17, leader leg).
+//
+// A real server.LeaderController (real WAL on a scratch directory, real in-memory Pebble store, rf = 1) is written to
+// through lc.Write; subscribers are (a) raw LeaderController.GetNotifications calls with every kind of start offset and
+// (b) the REAL client-side manager of oxia/notifications.go (shardNotificationsManager, driven one connection attempt at
+// a time through oxia.VerifShardNotifications) over an in-process client pool whose streams the harness breaks after a
+// chosen number of batches; leader changes replace the leader by a second real node that holds a copy of the log and
+// replays it (NewTerm + BecomeLeader); trimming rounds run the real notificationsTrimmer.trimNotifications with an
+// injected clock on the leader's store.
+//
+// CASE LINES: kind "nseq" (grammar in ocaml/db_main.ml, block C17; interpreted with Db/NotifStream.v):
+//
+//	W:<offset>:<ts>:<puts>:<dels>:<ranges>   as in harness/cmd/db; offset and timestamp are the ones the leader assigned
+//	GN:<start|n>:<qc>      one raw GetNotifications call, read until the stream is quiet   -> <batch>,... | err:<kind>
+//	CC<i>:<k>:<qc>         client i (re)connects, receives at most k batches, the stream breaks
+//	                       -> req=<n|offset>|ev=<sorted notifications>|last=<lastOffsetReceived>
+//	CL<i>:<qc>             client i, still connected since its last CC, after further writes -> ev=...|last=...
+//	L:<0|1>                leader change to a fresh node replaying the log, notifications enabled or not in the new term
+//	X:<now>:<retention>    one trimming round on the current leader's store -> trimmed | nothing | err
+//
+// SPEC VERDICTS (independent of the model: the reference of req.go and direct reads of the store)
+//
+//	notif:batch-missing / notif:batch-content-differs / notif:internal-key-exposed   (stored batch of every applied request,
+//	                                  also on the new leader after a change)
+//	notif:gap-or-duplicate-on-resume  a subscriber (raw or client) did not get exactly the retained batches above its
+//	                                  position, in order, each once; for clients: the notifications handed to the
+//	                                  application are not those of exactly these batches
+//	notif:delivered-above-commit      a batch above the leader's commit offset went down a stream
+//	notif:trimmed-within-retention    a round removed a batch younger than now-retention, or not a prefix
+//
+// -mode uncommitted: rf = 2 with an in-process follower whose acknowledgements the harness holds back: nothing may be
+// stored or delivered for an entry that is appended but not committed (verdict notif:delivered-above-commit).
+// -mode real-client: ONE scenario through oxia.VerifNewNotifications = newNotifications with its goroutines and its
+// retry loop (about 1.5 s of back-off): the O-17 scenario (initialised on an empty shard, reconnect before the first batch).
 package main
 
 import (
 	"context"
+	"flag"
 	"fmt"
+	"sort"
+	"strconv"
+	"strings"
+	"sync"
 	"time"
 
 	"github.com/oxia-db/oxia/common/concurrent"
+	oxtime "github.com/oxia-db/oxia/common/time"
+	"github.com/oxia-db/oxia/oxia"
 	"github.com/oxia-db/oxia/proto"
+	"github.com/oxia-db/oxia/server"
+	"github.com/oxia-db/oxia/server/kv"
+
+	"verif/harness/internal/hx"
 )
 
 const notifPrefix = "__oxia/notifications/"
+const allBatches = 100000
 
-type cluster struct{ leader *node }
+var keys = []string{"a", "b", "c", "a/b", "a/c", "a/b/c", "a-", "a0", "\xffz", "k\x01x", "x?y", "zz", "zz/y", "/", "__oxib/x", "m/n", "0", "%"}
+var seqPrefixes = []string{"s", "q/x"}
 
-func (c *cluster) getNotifications(ctx context.Context, req *proto.NotificationsRequest, cb concurrent.StreamCallback[*proto.NotificationBatch]) {
-	c.leader.lc.GetNotifications(ctx, req, cb)
+type world struct {
+	o       *hx.Out
+	rng     *hx.Rng
+	tag     string
+	shard   int64
+	leader  *node
+	term    int64
+	enabled bool
+	ref     *refState
+	want    map[int64]string // reference notifications per applied offset
+	tsOf    map[int64]uint64
+	nextOff int64
+	subs    map[int]*subscriber
+	open    map[int]bool  // client i has an open stream (between CC with k=all and CL)
+	openPos map[int]int64 // its position when the CC step ended
+	ops     []string
+	res     []string
+	vers    map[string]int64
+}
+
+func (w *world) getNotifications(ctx context.Context, req *proto.NotificationsRequest, cb concurrent.StreamCallback[*proto.NotificationBatch]) {
+	w.leader.lc.GetNotifications(ctx, req, cb)
+}
+
+func (w *world) viol(sig, format string, a ...any) {
+	w.o.Violation(sig, fmt.Sprintf("%s after [%s]: ", w.tag, strings.Join(w.ops, ";"))+fmt.Sprintf(format, a...))
+}
+
+func (w *world) record(op, res string) {
+	w.ops = append(w.ops, op)
+	w.res = append(w.res, res)
+}
+
+// commit: the quorum tracker's commit offset (what GetNotifications puts into the dummy batch)
+func (w *world) commit() int64 { return server.VerifClusterLeaderCommitOffset(w.leader.lc) }
+
+// applied: the DB's commit offset = the last entry applied (entries are applied only once committed)
+func (w *world) applied() int64 {
+	off, _ := w.leader.lastAppliedOffsetAndTs()
+	return off
+}
+
+func (w *world) storedOffsets() (offs []int64, byOff map[int64]*proto.NotificationBatch) {
+	byOff = map[int64]*proto.NotificationBatch{}
+	for _, b := range w.leader.storedBatches() {
+		offs = append(offs, b.Offset)
+		byOff[b.Offset] = b
+	}
+	return
+}
+
+// checkStored compares the stored batch of one offset with the reference.
+func (w *world) checkStored(off int64, ctx string) {
+	_, byOff := w.storedOffsets()
+	b, ok := byOff[off]
+	if !w.enabled {
+		if ok {
+			w.viol("notif:batch-content-differs", "%s: notifications are disabled in this term but a batch is stored under %d", ctx, off)
+		}
+		return
+	}
+	if !ok {
+		w.viol("notif:batch-missing", "%s: no batch stored under offset %d", ctx, off)
+		return
+	}
+	got := notifsS(b.Notifications)
+	if b.Shard != w.shard || b.Offset != off || b.Timestamp != w.tsOf[off] || got != w.want[off] {
+		w.viol("notif:batch-content-differs", "%s: stored %s, expected %d/%d/%d/%s", ctx, batchS(b), w.shard, off, w.tsOf[off], w.want[off])
+	}
+	for k := range b.Notifications {
+		if strings.HasPrefix(k, internalPrefix) {
+			w.viol("notif:internal-key-exposed", "%s: batch %d names %s", ctx, off, hexs(k))
+		}
+	}
+}
+
+// ---------------------------------------------------------------- steps
+
+func (w *world) write(req *wreq) {
+	resp, err := w.leader.write(req.toProto())
+	if err != nil {
+		panic(fmt.Sprintf("leader write failed: %v (%s)", err, req.String()))
+	}
+	off, ts := w.leader.lastAppliedOffsetAndTs()
+	if off != w.nextOff {
+		panic(fmt.Sprintf("leader applied offset %d, expected %d", off, w.nextOff))
+	}
+	req.offset, req.ts = off, ts
+	w.nextOff++
+	w.tsOf[off] = ts
+	w.want[off] = w.ref.changes(req, resp)
+	for i, p := range resp.Puts {
+		if p.Status == proto.Status_OK && p.Version != nil && len(req.puts[i].deltas) == 0 {
+			w.vers[req.puts[i].key] = p.Version.VersionId
+		}
+	}
+	w.record(req.String(), respS(resp))
+	w.o.Count("write")
+	w.checkStored(off, "request "+req.String())
+}
+
+func p64(v int64) *int64 { return &v }
+
+func (w *world) genRequest() *wreq {
+	r := &wreq{}
+	rng := w.rng
+	key := func() string { return hx.Pick(rng, keys) }
+	switch rng.Intn(10) {
+	case 0: // several operations on one key
+		k := key()
+		r.puts = append(r.puts, putOp{key: k, value: []byte("1")}, putOp{key: k, value: []byte("2")})
+		if rng.Bool() {
+			r.dels = append(r.dels, delOp{key: k})
+		}
+	case 1: // range delete, sometimes with a put swept by it
+		a, b := key(), key()
+		if a == "" && b == "" {
+			b = "a"
+		}
+		if rng.Chance(40) {
+			r.puts = append(r.puts, putOp{key: key(), value: []byte("r")})
+		}
+		if !sweepsInternal(a, b) {
+			r.ranges = append(r.ranges, rangeOp{a, b})
+		} else {
+			r.dels = append(r.dels, delOp{key: a})
+		}
+	case 2: // sequence put
+		r.puts = append(r.puts, putOp{key: hx.Pick(rng, seqPrefixes), value: []byte("s"), part: func() *string { s := "pk"; return &s }(),
+			deltas: []uint64{uint64(1 + rng.Intn(3))}})
+	case 3: // conditional put / delete
+		k := key()
+		exp := p64(-1)
+		if v, ok := w.vers[k]; ok && rng.Chance(60) {
+			exp = p64(v)
+		}
+		if rng.Bool() {
+			r.puts = append(r.puts, putOp{key: k, value: []byte("c"), exp: exp})
+		} else {
+			r.dels = append(r.dels, delOp{key: k, exp: exp})
+		}
+	case 4: // delete (often of a missing key: an empty batch)
+		r.dels = append(r.dels, delOp{key: key()})
+	default:
+		for i, n := 0, 1+rng.Intn(3); i < n; i++ {
+			r.puts = append(r.puts, putOp{key: key(), value: []byte(fmt.Sprintf("v%d", rng.Intn(100)))})
+		}
+		if rng.Chance(30) {
+			r.dels = append(r.dels, delOp{key: key()})
+		}
+	}
+	return r
+}
+
+func hasSlash(s string) bool { return strings.IndexByte(s, '/') >= 0 }
+func seg1(s string) string   { return s[:strings.IndexByte(s, '/')] }
+
+// sweepsInternal: could [start, end) contain a key with prefix "__oxia/"? (the test of harness/cmd/db/gen.go)
+func sweepsInternal(start, end string) bool {
+	if strings.HasPrefix(start, internalPrefix) || strings.HasPrefix(end, internalPrefix) {
+		return true
+	}
+	if !hasSlash(end) || seg1(end) < "__oxia" {
+		return false
+	}
+	if hasSlash(start) && seg1(start) > "__oxia" {
+		return false
+	}
+	return true
+}
+
+// expectedStream: what a stream positioned at [pos] (nil: a new subscriber, dummy batch first at qc) must carry,
+// given what is stored right now.
+func (w *world) expectedStream(pos *int64, qc int64) (offsets []int64, dummy bool) {
+	from := qc
+	if pos != nil {
+		from = *pos
+	} else {
+		dummy = true
+	}
+	offs, _ := w.storedOffsets()
+	for _, o := range offs {
+		if o > from {
+			offsets = append(offsets, o)
+		}
+	}
+	return
+}
+
+func maxOf(offs []int64) int64 {
+	m := int64(-1)
+	for _, o := range offs {
+		if o > m {
+			m = o
+		}
+	}
+	return m
+}
+
+// rawStream: one LeaderController.GetNotifications call, read until quiet.
+func (w *world) rawStream(start *int64) {
+	qc := w.commit()
+	var mu sync.Mutex
+	var got []*proto.NotificationBatch
+	var fin error
+	done := false
+	ctx, cancel := context.WithCancel(context.Background())
+	req := &proto.NotificationsRequest{Shard: w.shard, StartOffsetExclusive: start}
+	w.leader.lc.GetNotifications(ctx, req, concurrent.NewStreamOnce(func(b *proto.NotificationBatch) error {
+		mu.Lock()
+		got = append(got, b)
+		mu.Unlock()
+		return nil
+	}, func(err error) {
+		mu.Lock()
+		fin, done = err, true
+		mu.Unlock()
+	}))
+	want, dummy := w.expectedStream(start, qc)
+	target := len(want)
+	if dummy {
+		target++
+	}
+	deadline := time.Now().Add(opTimeout)
+	for {
+		mu.Lock()
+		n, d := len(got), done
+		mu.Unlock()
+		if n >= target || d || time.Now().After(deadline) {
+			break
+		}
+		time.Sleep(100 * time.Microsecond)
+	}
+	time.Sleep(time.Millisecond) // anything beyond the expected batches would follow at once
+	cancel()
+	mu.Lock()
+	defer mu.Unlock()
+	op := fmt.Sprintf("GN:%s:%d", optI(start), qc)
+	if done && fin != nil && len(got) == 0 {
+		w.record(op, "err:"+errKind(fin))
+		w.o.Count("raw-stream:err")
+		return
+	}
+	var xs []string
+	for _, b := range got {
+		xs = append(xs, batchS(b))
+	}
+	w.record(op, join(xs, ","))
+	w.o.Count("raw-stream")
+	w.judgeStream(op, got, want, dummy, qc)
+}
+
+func errKind(err error) string {
+	if strings.Contains(err.Error(), "notifications not enabled") || strings.Contains(err.Error(), "notifications disabled") {
+		return "notifications_disabled"
+	}
+	return "other"
+}
+
+// judgeStream: dummy first (if expected), then exactly the retained batches above the position, in order.
+func (w *world) judgeStream(ctx string, got []*proto.NotificationBatch, want []int64, dummy bool, qc int64) {
+	i := 0
+	if dummy {
+		if len(got) == 0 || got[0].Offset != qc || len(got[0].Notifications) != 0 {
+			w.viol("notif:gap-or-duplicate-on-resume", "%s: the first batch is not the dummy batch at the commit offset %d", ctx, qc)
+			return
+		}
+		i = 1
+	}
+	var offs []int64
+	for _, b := range got[i:] {
+		offs = append(offs, b.Offset)
+		if b.Offset > w.applied() {
+			w.viol("notif:delivered-above-commit", "%s: batch %d, applied commit offset %d", ctx, b.Offset, w.applied())
+			return
+		}
+	}
+	if fmt.Sprint(offs) != fmt.Sprint(want) {
+		w.viol("notif:gap-or-duplicate-on-resume", "%s: delivered offsets %v, retained batches above the position %v", ctx, offs, want)
+		return
+	}
+	for _, b := range got[i:] {
+		if notifsS(b.Notifications) != w.want[b.Offset] {
+			w.viol("notif:batch-content-differs", "%s: delivered %s, expected notifications %s", ctx, batchS(b), w.want[b.Offset])
+			return
+		}
+	}
+}
+
+func eventS(n *oxia.Notification) string {
+	s := hexs(n.Key) + "~"
+	switch n.Type {
+	case oxia.KeyCreated:
+		s += "c" + strconv.FormatInt(n.VersionId, 10)
+	case oxia.KeyModified:
+		s += "m" + strconv.FormatInt(n.VersionId, 10)
+	case oxia.KeyDeleted:
+		s += "d"
+	case oxia.KeyRangeRangeDeleted:
+		s += "r" + hexs(n.KeyRangeEnd)
+	}
+	return s
+}
+
+// judgeClient: the notifications handed to the application are those of exactly the expected batches, batch by batch.
+func (w *world) judgeClient(ctx string, events []*oxia.Notification, batches []int64) {
+	i := 0
+	for _, off := range batches {
+		wantTxt := w.want[off]
+		var want []string
+		if wantTxt != "-" {
+			want = strings.Split(wantTxt, "&")
+		}
+		if i+len(want) > len(events) {
+			w.viol("notif:gap-or-duplicate-on-resume", "%s: the application did not receive the notifications of batch %d (%s)", ctx, off, wantTxt)
+			return
+		}
+		var got []string
+		for _, e := range events[i : i+len(want)] {
+			got = append(got, eventS(e))
+		}
+		sort.Strings(got)
+		if join(got, "&") != join(want, "&") {
+			w.viol("notif:gap-or-duplicate-on-resume", "%s: for batch %d the application received %s, expected %s", ctx, off, join(got, "&"), wantTxt)
+			return
+		}
+		i += len(want)
+	}
+	if i != len(events) {
+		w.viol("notif:gap-or-duplicate-on-resume", "%s: %d notifications beyond the expected batches %v", ctx, len(events)-i, batches)
+	}
+}
+
+func eventsS(events []*oxia.Notification) string {
+	var xs []string
+	for _, e := range events {
+		xs = append(xs, eventS(e))
+	}
+	sort.Strings(xs)
+	return join(xs, "&")
+}
+
+// clientConnect: client i (re)connects and receives at most k batches. keepOpen leaves the stream up (k = all).
+func (w *world) clientConnect(i, k int, keepOpen bool) {
+	s := w.subs[i]
+	if s == nil {
+		s = newSubscriber(i, w.shard, w)
+		w.subs[i] = s
+	}
+	qc := w.commit()
+	var pos *int64
+	if s.v.Initialized() {
+		pos = p64(s.v.LastOffsetReceived())
+	}
+	want, dummy := w.expectedStream(pos, qc)
+	st, err := s.connect(k)
+	op := fmt.Sprintf("CC%d:%d:%d", i, k, qc)
+	if err != nil || st == nil {
+		w.record(op, "req=?|err")
+		return
+	}
+	target := maxOf(want)
+	if dummy && qc > target {
+		target = qc
+	}
+	if !st.settle(target, opTimeout) {
+		w.o.Count("client:settle-timeout")
+	}
+	events := s.drain()
+	st.mu.Lock()
+	passed := append([]*proto.NotificationBatch(nil), st.passed...)
+	finished, finErr := st.finished, st.finErr
+	st.mu.Unlock()
+	if !keepOpen || finished {
+		_ = s.disconnect()
+		w.open[i] = false
+	} else {
+		w.open[i] = true
+		w.openPos[i] = s.v.LastOffsetReceived()
+	}
+	if finished && finErr != nil && len(passed) == 0 {
+		w.record(op, fmt.Sprintf("req=%s|ev=-|last=%d", optI(st.start), s.v.LastOffsetReceived()))
+		w.o.Count("client:stream-error")
+		return
+	}
+	w.record(op, fmt.Sprintf("req=%s|ev=%s|last=%d", optI(st.start), eventsS(events), s.v.LastOffsetReceived()))
+	w.o.Count("client:connect")
+	// verdict: position known to the harness, not what the client chose to send
+	expTotal := len(want)
+	if dummy {
+		expTotal++
+	}
+	n := k
+	if n > expTotal {
+		n = expTotal
+	}
+	wantBatches := want
+	if dummy {
+		if n == 0 {
+			wantBatches = nil
+		} else {
+			wantBatches = want[:n-1]
+		}
+	} else {
+		wantBatches = want[:n]
+	}
+	ctx := fmt.Sprintf("%s (client position before: %s, commit offset %d)", op, optI(pos), qc)
+	for _, b := range passed {
+		if b.Offset > w.applied() && b.Offset != qc {
+			w.viol("notif:delivered-above-commit", "%s: batch %d went down the stream, applied commit offset %d", ctx, b.Offset, w.applied())
+		}
+	}
+	w.judgeClient(ctx, events, wantBatches)
+	if n > 0 {
+		wantLast := qc
+		if !dummy {
+			wantLast = *pos
+		}
+		if len(wantBatches) > 0 {
+			wantLast = wantBatches[len(wantBatches)-1]
+		}
+		if got := s.v.LastOffsetReceived(); got != wantLast {
+			w.viol("notif:gap-or-duplicate-on-resume", "%s: the client is positioned at %d, expected %d", ctx, got, wantLast)
+		}
+	}
+}
+
+// clientContinue: client i kept its stream; after further writes it must have received exactly their batches.
+func (w *world) clientContinue(i int) {
+	s := w.subs[i]
+	if s == nil || !w.open[i] || s.cur == nil {
+		return
+	}
+	qc := w.commit()
+	pos := p64(w.openPos[i])
+	want, _ := w.expectedStream(pos, qc)
+	if !s.cur.settle(maxOf(want), opTimeout) {
+		w.o.Count("client:settle-timeout")
+	}
+	events := s.drain()
+	_ = s.disconnect()
+	w.open[i] = false
+	op := fmt.Sprintf("CL%d:%d", i, qc)
+	w.record(op, fmt.Sprintf("ev=%s|last=%d", eventsS(events), s.v.LastOffsetReceived()))
+	w.o.Count("client:continue")
+	w.judgeClient(op, events, want)
+}
+
+func (w *world) closeOpenStreams() {
+	for i := range w.open {
+		if w.open[i] {
+			w.clientContinue(i)
+		}
+	}
+}
+
+func (w *world) leaderChange(enabled bool) {
+	w.closeOpenStreams()
+	old := w.leader
+	old.closeController()
+	entries := old.walEntries()
+	nw := newNode(w.shard)
+	nw.preload(entries)
+	nw.start()
+	w.term++
+	nw.becomeLeader(w.term, enabled, false)
+	w.leader = nw
+	w.enabled = enabled
+	old.destroy()
+	w.record(fmt.Sprintf("L:%d", b2i(enabled)), "ok")
+	w.o.Count("leader-change")
+	// the new leader replayed the whole log under its own term options
+	for off := int64(0); off < w.nextOff; off++ {
+		w.checkStored(off, fmt.Sprintf("after the leader change (term %d)", w.term))
+	}
+}
+
+func b2i(b bool) int {
+	if b {
+		return 1
+	}
+	return 0
+}
+
+func (w *world) trim(now, ret int64) {
+	w.closeOpenStreams()
+	before, byOff := w.storedOffsets()
+	w.leader.kvf.mu.Lock()
+	store := w.leader.kvf.store
+	w.leader.kvf.mu.Unlock()
+	clk := &oxtime.MockedClock{}
+	clk.Set(now)
+	err := kv.VerifTrimNotifications(store, time.Duration(ret)*time.Millisecond, clk)
+	after, _ := w.storedOffsets()
+	res := "nothing"
+	if err != nil {
+		res = "err"
+	} else if len(after) != len(before) {
+		res = "trimmed"
+	}
+	w.record(fmt.Sprintf("X:%d:%d", now, ret), res)
+	w.o.Count("trim:" + res)
+	kept := map[int64]bool{}
+	for _, o := range after {
+		kept[o] = true
+	}
+	minKept := int64(-1)
+	if len(after) > 0 {
+		minKept = after[0]
+	}
+	for _, o := range before {
+		if kept[o] {
+			continue
+		}
+		if minKept >= 0 && o > minKept {
+			w.viol("notif:trimmed-within-retention", "trim now=%d retention=%d removed offset %d but kept the lower offset %d", now, ret, o, minKept)
+			return
+		}
+		if int64(byOff[o].Timestamp) > now-ret {
+			w.viol("notif:trimmed-within-retention", "trim now=%d retention=%d removed offset %d with timestamp %d", now, ret, o, byOff[o].Timestamp)
+			return
+		}
+	}
+}
+
+// ---------------------------------------------------------------- scenarios
+
+func runScenario(o *hx.Out, rng *hx.Rng, tag string, script func(w *world)) {
+	shard := int64(1 + rng.Intn(9))
+	w := &world{o: o, rng: rng, tag: tag, shard: shard, term: 1, enabled: true, ref: &refState{exists: map[string]bool{}},
+		want: map[int64]string{}, tsOf: map[int64]uint64{}, subs: map[int]*subscriber{}, open: map[int]bool{}, openPos: map[int]int64{}, vers: map[string]int64{}}
+	w.leader = newNode(shard)
+	w.leader.start()
+	w.leader.becomeLeader(1, true, false)
+	defer func() {
+		for _, s := range w.subs {
+			_ = s.disconnect()
+			s.v.Cancel()
+		}
+		w.leader.destroy()
+	}()
+	script(w)
+	w.closeOpenStreams()
+	o.Case("nseq", fmt.Sprintf("%d %d %s", shard, kv.DeleteRangeThreshold, strings.Join(w.ops, ";")), strings.Join(w.res, ";"),
+		fmt.Sprintf("%d", rng.U64()))
+}
+
+// the O-17 scenario: initialised on an empty shard, stream breaks, writes, reconnect
+func scriptEmptyShardReconnect(w *world) {
+	w.clientConnect(0, 1, false) // the dummy batch at offset -1 only
+	for i := 0; i < 3; i++ {
+		w.write(&wreq{puts: []putOp{{key: fmt.Sprintf("k%d", i), value: []byte("v")}}})
+	}
+	w.clientConnect(0, allBatches, false)
+	w.o.Count("scenario:empty-shard-reconnect")
+}
+
+func scriptRandom(w *world) {
+	rng := w.rng
+	steps := 10 + rng.Intn(18)
+	if rng.Chance(30) { // a subscriber from the very beginning (empty shard)
+		w.clientConnect(0, 1+rng.Intn(2), false)
+	}
+	for i := 0; i < steps; i++ {
+		switch x := rng.Intn(100); {
+		case x < 42:
+			for j, n := 0, 1+rng.Intn(3); j < n; j++ {
+				w.write(w.genRequest())
+			}
+		case x < 57:
+			c := w.nextOff - 1
+			starts := []*int64{nil, p64(-1), p64(0), p64(c), p64(c - 1), p64(c / 2), p64(c + 1), p64(c - 2)}
+			w.rawStream(hx.Pick(rng, starts))
+		case x < 80:
+			i := rng.Intn(3)
+			if w.open[i] {
+				w.clientContinue(i)
+				break
+			}
+			k := hx.Pick(rng, []int{0, 1, 1, 2, 3, allBatches, allBatches, allBatches})
+			w.clientConnect(i, k, k == allBatches && rng.Chance(50))
+		case x < 86:
+			en := w.enabled
+			if rng.Chance(20) {
+				en = !en
+			}
+			w.leaderChange(en)
+		case x < 96:
+			offs, byOff := w.storedOffsets()
+			if len(offs) == 0 {
+				break
+			}
+			b := byOff[hx.Pick(rng, offs)]
+			ret := int64(hx.Pick(rng, []int{0, 1, 1000}))
+			cut := int64(b.Timestamp) + int64(rng.Intn(3)) - 1
+			w.trim(cut+ret, ret)
+		default:
+			// every start offset there is
+			for s := int64(-1); s <= w.nextOff; s++ {
+				w.rawStream(p64(s))
+			}
+		}
+	}
+	for i := range w.subs {
+		if !w.open[i] {
+			w.clientConnect(i, allBatches, false)
+		}
+	}
+}
+
+func genCases(o *hx.Out, rng *hx.Rng, n int) {
+	runScenario(o, rng.Fork(), "empty-shard-reconnect", scriptEmptyShardReconnect)
+	for c := 0; c < n; c++ {
+		runScenario(o, rng.Fork(), fmt.Sprintf("notif#%d", c), scriptRandom)
+	}
 }
 
 func main() {
-	a := newNode(1)
-	a.start()
-	a.becomeLeader(1, true, false)
-	c := &cluster{leader: a}
-	s := newSubscriber(0, 1, c)
-	st, err := s.connect(-1)
-	fmt.Println("connect1", st.start, err)
-	fmt.Println("settled", st.settle(-1, time.Second), "passed", len(st.passed), "last", s.v.LastOffsetReceived(), "init", s.v.Initialized())
-	fmt.Println("disconnect", s.disconnect())
-	for i := 0; i < 3; i++ {
-		r, err := a.write(&proto.WriteRequest{Puts: []*proto.PutRequest{{Key: fmt.Sprintf("k%d", i), Value: []byte("v")}}})
-		fmt.Println("write", r.GetPuts()[0].GetStatus(), err)
+	mode := flag.String("mode", "", "uncommitted | real-client | (default) generated scenarios with model comparison")
+	f := hx.ParseFlags()
+	o := hx.NewOut(f.OutDir)
+	defer o.Close()
+	if f.Replay != "" {
+		// replays of this leg re-run the generated scenarios of the recorded seed: the case lines carry wall-clock timestamps
+		// of the original run and cannot be forced on the leader
+		genCases(o, hx.NewRng(f.Seed), f.N)
+		return
 	}
-	st, err = s.connect(-1)
-	fmt.Println("connect2 start=", st.start, err)
-	fmt.Println("settled", st.settle(2, time.Second))
-	for _, b := range st.passed {
-		fmt.Println("  batch", b.Offset, len(b.Notifications))
+	switch *mode {
+	case "uncommitted":
+		runUncommitted(o, hx.NewRng(f.Seed), f.N)
+	case "real-client":
+		runRealClient(o)
+	default:
+		genCases(o, hx.NewRng(f.Seed), f.N)
 	}
-	fmt.Println("events", len(s.drain()), "last", s.v.LastOffsetReceived())
-	s.disconnect()
-	a.destroy()
 }
